@@ -114,13 +114,15 @@ CLAIMED = {
          "exactly, conserves the queued bytes, keeps every frame within the peer's max frame size (tx_window_safe) and stops with "
          "bytes in hand only when a window is closed (tx_blocked_only_by_window). Server send side: C20 (Consume). Server receive "
          "side: a model of processData / noteBodyRead / closeStream / sendWindowUpdate (Model/H2Rx) with the theorem that for "
-         "EVERY sequence of client frames and handler actions on any number of streams the connection-level credit handed back "
+         "EVERY sequence of client frames and handler actions (reads, returns, Body.Close() followed by more DATA) on any number "
+         "of streams the connection-level credit handed back "
          "or batched plus the bytes still buffered for open streams is at least the initial window and the batched part stays "
          "< 4096 (rx_no_credit_lost, by a ledger invariant through every branch), tied to the real serverConn by an exact "
          "differential of every WINDOW_UPDATE, RST_STREAM and GOAWAY; peer-side ledgers evaluated on the implementation's own "
          "frames turn a disagreement into a concrete failing input. Constants regenerated"),
    note=("PARTIAL: the receive-side theorem is the connection-level ledger (stream-level windows are covered by the differential); "
-         "the transport model covers one upload of unknown length per connection. D14 (double connection-level refund after "
+         "the transport model covers one upload of unknown length per connection; the transport's RECEIVE side (response bodies) "
+         "has no Lean model: its connection-credit ledger is evaluated on the real transport's own WINDOW_UPDATE frames (h2trx). D14 (double connection-level refund after "
          "RST_STREAM + late read) is reproduced by the model as the code has it — the non-vacuity example of rx_no_credit_lost "
          "ends with 5000 bytes of credit too many — and is why the theorem is one-sided, like the property. "
          "Trusted: Lean kernel + standard axioms; translator; harness (package-internal access through overlay, upstream's "
